@@ -199,7 +199,7 @@ fn run(unit: &Value, tier: Tier, out: &mut UnitResult) {
         "roundtrip" => {
             let bodies = bodies();
             let maps = header_maps();
-            let routes = routes(tier.pick(2, 3));
+            let routes = routes(tier.pick(3, 4));
             let part = unit["part"].as_u64().unwrap() as usize;
             let parts = unit["parts"].as_u64().unwrap() as usize;
             for (ri, route) in routes.iter().enumerate() {
@@ -356,14 +356,12 @@ fn run(unit: &Value, tier: Tier, out: &mut UnitResult) {
                 }
             }
             // 5-byte tag at Hamming distance 1 and every other preamble substitution must be rejected
-            let values: Vec<u8> = match tier {
-                Tier::Quick => vec![0x00, 0xff, 0x01, 0x80, 0x7f],
-                Tier::Thorough => (0..=255u8).collect(),
-            };
-            let structural = bytes.len().min(8 + 4 + 60); // preamble + length prefix + header region
+            let values: Vec<u8> = (0..=255u8).collect();
+            // preamble + length prefix + header region (quick) / the whole message (thorough)
+            let structural = tier.pick(bytes.len().min(8 + 4 + 60), bytes.len());
             for off in 0..structural {
                 for v in &values {
-                    let candidates: Vec<u8> = if tier == Tier::Quick { vec![*v, bytes[off] ^ 1, bytes[off] ^ 0x80] } else { vec![*v] };
+                    let candidates: Vec<u8> = vec![*v];
                     for nv in candidates {
                         if nv == bytes[off] {
                             continue;
@@ -395,7 +393,7 @@ fn run(unit: &Value, tier: Tier, out: &mut UnitResult) {
                 if dec(bytes, vec![c1]) != baseline {
                     out.violation("chunking-changes-result", format!("message delivered in two chunks cut at {c1} decodes differently"), rp("chunk", json!([si, c1])));
                 }
-                let step = tier.pick(5, 1);
+                let step = tier.pick(2, 1);
                 for c2 in ((c1 + 1)..bytes.len()).step_by(step) {
                     out.evaluations += 1;
                     if dec(bytes, vec![c1, c2]) != baseline {
